@@ -27,6 +27,7 @@ type Ctrl struct {
 	Bufsiz     int                    `json:"bufsiz"`
 	PeriodMs   int                    `json:"period_ms"` // 0 = relisting disabled (10000h)
 	Filter     world.FilterSpec       `json:"filter"`
+	Bystander  bool                   `json:"bystander,omitempty"` // a second, unrelated controller in the same process whose every Watch call hangs: controllers share nothing
 	BaseRV     int                    `json:"base_rv,omitempty"` // the server's version counter starts here (0 = 10)
 	Init       []world.Spec           `json:"init"`
 	ListLatMs  [2]int                 `json:"list_lat_ms"`
@@ -209,6 +210,7 @@ func genC04(g GenCtx) interface{} {
 	sc := &Ctrl{Prop: g.Prop}
 	sc.BaseRV = world.BaseRVs[rng.Intn(len(world.BaseRVs))]
 	sc.Bufsiz = pickInt(rng, 2, 3, 4, 8, 16, 100)
+	sc.Bystander = rng.Intn(4) == 0
 	sc.PeriodMs = 0
 	if rng.Intn(3) == 0 {
 		sc.Filter = randFilter(rng)
@@ -276,6 +278,14 @@ func runCtrl(sci interface{}) {
 	// no hand-off can overflow while the whole server log (initial objects
 	// included: a reconnect from a stale version re-sends all of it) fits a buffer
 	h.ExpectNoOverflow = sc.Bufsiz >= 100 && len(sc.Init)+len(sc.Acts) <= 60
+	if sc.Bystander {
+		srv2 := world.NewServer("pod")
+		srv2.WatchMode = "hang"
+		srv2.Apply(world.Spec{NS: "other", Name: "x"})
+		h2 := world.NewH(srv2, world.FilterSpec{}, noRelist, false)
+		h2.NoRelist = true
+		h2.Start()
+	}
 	h.Start()
 	detsim.SetInvariant(h.Invariant)
 	maxLat := ms(sc.ListLatMs[0] + sc.ListLatMs[1])
